@@ -125,6 +125,24 @@ Theorem C08_poll_add_failure_refuted :
   cb_after_last_poll_del (out (run_history_fx fixes_polladd_missing beh_none hist_polladd [])) = 2%nat.
 Proof. exact poll_add_failure_refuted. Qed.
 
+(* descriptor numbers closed and reused without poll_del: as found the stale entry shadows the new one (refuted, replayed on
+   the real library); repaired (fixes/C08-poll-add-live-fd) an add of a number that still has a live entry is refused with
+   -EEXIST and changes nothing, so an add that goes through never creates a second live entry for a number *)
+Theorem C08_fd_reuse_refuted :
+  last_poll_del_result (out (run_history_fx fixes_pollreuse_missing beh_none hist_fdreuse [])) = Some 0 /\
+  cb_after_last_poll_del (out (run_history_fx fixes_pollreuse_missing beh_none hist_fdreuse [])) = 1%nat.
+Proof. exact fd_reuse_refuted. Qed.
+Theorem C08_poll_add_refuses_live_fd : forall g p fd ev key st, fx_pollreuse (fx st) = true ->
+  existsb (fd_is_live fd) (polls st) = true -> poll_add_gen g p fd ev key st = (- LOOP_EEXIST, st).
+Proof. exact poll_add_refuses_live_fd. Qed.
+Theorem C08_poll_add_ok_means_fresh_fd : forall g p fd ev key st, fx_pollreuse (fx st) = true ->
+  fst (poll_add_gen g p fd ev key st) = 0 -> existsb (fd_is_live fd) (polls st) = false.
+Proof. exact poll_add_ok_means_fresh_fd. Qed.
+Example C08_example_fd_reuse_repaired :
+  cb_after_last_poll_del (out (run_history_fx fixes_all beh_none hist_fdreuse [])) = 0%nat /\
+  existsb (fun e => match e with EvRet 6 r => r =? - LOOP_EEXIST | _ => false end) (out (run_history_fx fixes_all beh_none hist_fdreuse [])) = true.
+Proof. exact fd_reuse_repaired_witness. Qed.
+
 (* non-vacuity *)
 Example C08_example_history :
   map (fun e => match e with EvInv k u => k * 100 + u | EvDel k u => - (k * 100 + u) | _ => 0 end)
@@ -138,8 +156,8 @@ Proof. exact signal_del_repaired_witness. Qed.
 
 (* LAST, so that on a tree without the repairs only this obligation breaks: the tree the constants were probed from
    contains the two repairs the theorems above are about (behavioural probes of harness/consts/loop.c, on every run) *)
-Theorem C08_tree_repaired : fx_sigdel tree_fixes = true /\ fx_polladd tree_fixes = true.
-Proof. exact (conj eq_refl eq_refl). Qed.
+Theorem C08_tree_repaired : fx_sigdel tree_fixes = true /\ fx_polladd tree_fixes = true /\ fx_pollreuse tree_fixes = true.
+Proof. exact (conj (eq_refl true) (conj (eq_refl true) (eq_refl true))). Qed.
 
 Print Assumptions C08_tree_repaired.
 Print Assumptions C08_kernel_epoll_as_modelled.
@@ -162,5 +180,9 @@ Print Assumptions C08_signal_one_clone_per_delivery.
 Print Assumptions C08_run_ends_with_stop_turn.
 Print Assumptions C08_signal_del_refuted.
 Print Assumptions C08_poll_add_failure_refuted.
+Print Assumptions C08_fd_reuse_refuted.
+Print Assumptions C08_poll_add_refuses_live_fd.
+Print Assumptions C08_poll_add_ok_means_fresh_fd.
+Print Assumptions C08_example_fd_reuse_repaired.
 Print Assumptions C08_example_history.
 Print Assumptions C08_example_repaired.
